@@ -8,8 +8,10 @@ import dns.rdataclass
 import dns.rdataset
 import dns.rdatatype
 import dns.rrset
+import dns.tokenizer
 import dns.versioned
 import dns.zone
+import dns.zonefile
 
 ORIGIN = dns.name.from_text("example.")
 ZCLASSES = {"plain": dns.zone.Zone, "versioned": dns.versioned.Zone, "btree": dns.btreezone.Zone}
@@ -152,8 +154,10 @@ def build_rrset(name, ty, ttl, rds):
     return r
 
 
-def make_zone(zclass, relativize, init):
-    zone = ZCLASSES[zclass](ORIGIN, relativize=relativize)
+def make_zone(zclass, relativize, init, origin_known=True):
+    zone = ZCLASSES[zclass](ORIGIN if origin_known else None, relativize=relativize)
+    if not init:
+        return zone
     with zone.writer(True) as txn:
         for n, ty, ttl, rds in init:
             name = spell(n, "rel" if relativize else "abs")
@@ -173,8 +177,9 @@ def call(fn):
 def replay(script, zclass, relativize, tid):
     init_ev = script[0]
     init = sorted([list(x[:3]) + [sorted(list(r) for r in x[3])] for x in init_ev["zone"]])
-    trace = {"tid": tid, "zclass": zclass, "rel": relativize, "init": init, "ev": []}
-    zone = make_zone(zclass, relativize, init)
+    origin_known = bool(init_ev.get("origin", True))
+    trace = {"tid": tid, "zclass": zclass, "rel": relativize, "init": init, "origin": origin_known, "ev": []}
+    zone = make_zone(zclass, relativize, init, origin_known)
     ev = trace["ev"]
     ev.append({"op": "init", "zone": project_zone(zone, relativize)})
     txn = None
@@ -199,7 +204,7 @@ def replay(script, zclass, relativize, tid):
                 txn.__enter__()
                 if e["kind"] == "write":
                     txn.check_put_rdataset(cb)
-            rec.update(res=res, exc=exc or "")
+            rec.update(res=res, exc=exc or "", zorigin=zone.origin is not None)
             if txn is not None:
                 rec["state"] = project_txn(txn, relativize)
             ev.append(rec)
@@ -215,7 +220,7 @@ def replay(script, zclass, relativize, tid):
             else:  # an exception leaves the with-block
                 b = Boom()
                 res, exc, _ = call(lambda: txn.__exit__(Boom, b, None))
-            rec.update(res=res, exc=exc or "", zone=project_zone(zone, relativize))
+            rec.update(res=res, exc=exc or "", zone=project_zone(zone, relativize), zorigin=zone.origin is not None)
             ev.append(rec)
             # every further use must be refused, and must not change the zone
             rd = make_rdata("A", [1])
@@ -249,6 +254,11 @@ def replay(script, zclass, relativize, tid):
                 flag["raise"] = True
             res, exc, _ = call(fn)
             flag["raise"] = False
+        elif op == "learn":
+            # the public way a transaction learns an origin: a $ORIGIN line read by dns.zonefile.Reader
+            tok = dns.tokenizer.Tokenizer("$ORIGIN example.\n", "<learn>")
+            reader = dns.zonefile.Reader(tok, dns.rdataclass.IN, txn)
+            res, exc, _ = call(reader.read)
         elif op == "delname":
             name = spell(e["name"], e["sp"])
             meth = txn.delete_exact if e["exact"] else txn.delete
@@ -315,7 +325,7 @@ def replay(script, zclass, relativize, tid):
             rec["val"] = ["bool", bool(got)] if res == "ok" else ["-"]
         else:
             raise ValueError("unknown op %r" % op)
-        rec.update(res=res, exc=exc or "")
+        rec.update(res=res, exc=exc or "", zorigin=zone.origin is not None)
         rs, rexc, st = call(lambda: project_txn(txn, relativize))
         rec["state"] = st if rs == "ok" else [["PROJECTION-FAILED", rexc or "", 0, []]]
         ev.append(rec)
@@ -327,4 +337,5 @@ def run_job(job):
     try:
         return replay(script, zclass, relativize, tid)
     except Exception as e:  # a driver failure is reported as an unmatched trace
-        return {"tid": tid, "zclass": zclass, "rel": relativize, "init": [], "ev": [{"op": "driver-error", "exc": repr(e)}]}
+        return {"tid": tid, "zclass": zclass, "rel": relativize, "init": [], "origin": True,
+                "ev": [{"op": "driver-error", "exc": repr(e)}]}
